@@ -1,13 +1,15 @@
 CFG = {
     "level_text": "Machine-checked Lean 4 theorems over an executable event model of TCPMuxDefault / tcpPacketConn (virtual time, "
                   "run-to-quiescence steps) for ALL operation sequences: first-frame classification and routing, per-connection order "
-                  "and source address, reply path, expiry of provisional connections, total teardown by Close. The model is tied to the "
+                  "and source address, reply path, expiry of provisional connections, total teardown by Close; and a simulation theorem: every "
+                  "run of the model is accepted by the (typed) spec monitor, all clauses (C15_model_passes_monitor). The model is tied to the "
                   "real code by differential execution under testing/synctest (virtual clock, goroutine census) with a fake listener "
-                  "and scripted hostile clients; an independent spec monitor is evaluated on the implementation's own outputs.",
+                  "and scripted hostile clients; the same spec monitor is evaluated on the implementation's own outputs.",
     "level_note": "Tie is C/A (correspondence on generated sessions), not a translation: the theorems are about the model. Trusted: the "
                   "fake net.Listener/net.Conn of the harness in place of real TCP (segmentation is property C14's), pion/stun decoding "
                   "(frames are classified by how the harness built them), the goroutine census by creation site, sequential "
-                  "run-to-quiescence scheduling (operations do not overlap; Close is split into call and return). Partial: races "
+                  "run-to-quiescence scheduling (operations do not overlap; Close is split into call and return); the printing and re-reading of the "
+                  "line protocol between the typed observation of the simulation theorem and the monitor (checked on every generated line). Partial: races "
                   "between the close watcher and concurrent GetConnByUfrag/handleConn are outside the sequential model; that window (finding F22) is covered by the concurrent recorder component tcpmuxrace (notes/C15.md).",
     "components": [{"component": "tcpmux", "session_start": "new", "trivial_regex": r"^(bad-op|no-session|noop.*)$",
                     "timeout_quick": 300, "timeout_thorough": 1500, "shrink_s": 60},
